@@ -174,7 +174,7 @@ def run(ctx):
         r.check('endpoints-never-cloned', not clones, None, built=clones, why='a cloned sender keeps a queue open after the I/O thread has died: its receiver would block forever')
         # thread_main owns the state
         fn = ctx.fn('io_loop::IoLoop::thread_main')
-        r.eq('thread_main:by-value', fn['inputs'][:2] + fn['inputs'][3:5], ['io_loop::IoLoop', 'S', 'crossbeam_channel::Sender<(usize, std::collections::BTreeMap<std::string::String, amq_protocol::types::AMQPValue>)>', 'io_loop::Channel0Slot'],
+        r.eq('thread_main:by-value', [ctx.expand_ty(t) for t in fn['inputs'][:2] + fn['inputs'][3:5]], ['io_loop::IoLoop', 'S', 'crossbeam_channel::Sender<(usize, std::collections::BTreeMap<std::string::String, amq_protocol::types::AMQPValue>)>', 'io_loop::Channel0Slot'],
              ctx.site('io_loop::IoLoop::thread_main'), why='loop state, stream, handshake sender and channel-0 slot are moved in, so they drop when the thread function returns')
         rows = P.table(ctx, 'io_loop::IoLoop::run_connection', ['self', 'stream', 'ch0_slot'])
         r.check('ch0-slot-moved-into-state', all('let $m0 = io_loop::connection_state::ConnectionState::Steady(ch0_slot)' in x.effects for x in rows), ctx.site('io_loop::IoLoop::run_connection'))
